@@ -362,6 +362,44 @@ def _mask_loop_form(ctx, p, m, params):
     return True
 
 
+def rule_wait(ctx):
+    p = ctx.p
+    ctx.rule("C06.WAIT", "BaseClient.command skips a reply exactly when its code matches a wait mask: the loop test depends on the wait masks only (not on the expected masks - a "
+                         "preliminary 1xx that also fits a wide expected mask would be returned as the answer and the final reply left on the stream for the next command), "
+                         "and whatever code ends the loop is checked against the expected masks")
+    cmd = p.method("BaseClient", "command")
+    params = [a.arg for a in cmd.args.args] + [a.arg for a in cmd.args.kwonlyargs]
+    exp_n = next((a for a in params if "expected" in a), None)
+    wait_n = next((a for a in params if "wait" in a), None)
+    if exp_n is None or wait_n is None:
+        raise AnalysisError("anchor=BaseClient.command(expected_codes, wait_codes) parameters not found")
+    loops = [l for l in walk_no_nested(cmd) if isinstance(l, ast.While) and any(isinstance(c, ast.Call) and is_self_call(c, {"parse_response"}) for c in ast.walk(l))]
+    if not loops:
+        raise Inconclusive("C06.WAIT: the loop that re-reads a reply in BaseClient.command was not found")
+    for l in loops:
+        t = deep_expand(p, l.test, cmd, stop={exp_n, wait_n})
+        names = {x.id for x in ast.walk(t) if isinstance(x, ast.Name)}
+        if isinstance(l.test, ast.Constant):
+            # `while True:` form: the tests that leave the loop decide
+            names = set()
+            for b in ast.walk(l):
+                if isinstance(b, ast.If) and any(isinstance(x, (ast.Break, ast.Return)) for s_ in b.body + b.orelse for x in ast.walk(s_)):
+                    names |= {x.id for x in ast.walk(deep_expand(p, b.test, cmd, stop={exp_n, wait_n})) if isinstance(x, ast.Name)}
+        ctx.ob("C06.WAIT", l, "the wait loop's test reads the wait masks", wait_n in names,
+               f"the loop that skips preliminary replies does not look at `{wait_n}`", construct="wait:test ignores wait masks")
+        ctx.ob("C06.WAIT", l, "the wait loop's test does not depend on the expected masks", exp_n not in names,
+               f"the loop that skips preliminary replies also depends on `{exp_n}` (`{src(l.test)[:70]}`): a reply that matches a wait mask and an expected mask "
+               "ends the wait - the final reply stays on the stream and is read as the answer to the next command", construct="wait:test depends on expected masks")
+    checks = [c for c in walk_no_nested(cmd) if isinstance(c, ast.Call) and is_self_call(c, {"check_codes"})]
+    ok = bool(checks) and all(c.args and src(c.args[0]) == exp_n for c in checks)
+    for c in checks:
+        gs = [(t, pol) for t, pol in all_guards(p, c, cmd)]
+        ok = ok and all((isinstance(t, ast.Name) and t.id == exp_n and pol) or (isinstance(t, ast.BoolOp) and isinstance(t.op, ast.Or) and pol and {src(v) for v in t.values} == {exp_n, wait_n})
+                        for t, pol in gs)
+    ctx.ob("C06.WAIT", checks[0] if checks else cmd, "the final code is checked against the expected masks whenever there are any", ok,
+           "BaseClient.command does not check the code that ended the wait against the expected masks on every path", construct="wait:final code unchecked")
+
+
 def rule_mask(ctx):
     p = ctx.p
     ctx.rule("C06.MASK", "Code.matches: per-position predicate over (mask char class) x (equal) = wildcard for any non-digit, equality for digits, aggregated with all(); mask literals are 3 chars")
@@ -523,4 +561,4 @@ def rule_support(ctx):
            construct=f"support:Code:{overridden}")
 
 
-RULES = [rule_enc, rule_dec, rule_mask, rule_lit, rule_cmd, rule_support]
+RULES = [rule_enc, rule_dec, rule_mask, rule_wait, rule_lit, rule_cmd, rule_support]
